@@ -1,7 +1,7 @@
 (* The fragment {sleep(d), sleep_until(t), log} of the task scripts of coq/Timer/Model.v:
    what the property demands of a task (exp_run), and what one poll of such a task does. *)
 From Coq Require Import List NArith Bool Lia ZifyBool.
-From DesVerif Require Import CQueue.Spec Timer.Driver Timer.QueueLemmas Timer.Inv Timer.Futures Timer.FutureLaws Timer.TempOps Timer.Model.
+From DesVerif Require Import Common.Codec CQueue.Spec Timer.Driver Timer.QueueLemmas Timer.Inv Timer.Futures Timer.FutureLaws Timer.TempOps Timer.Model.
 Import ListNotations.
 Open Scope N_scope.
 
@@ -11,6 +11,7 @@ Definition frag_step (s : step) : Prop :=
   | SSleep _ | SSleepUntil _ | SLog => True
   | SReset _ d1 d2 => d1 < FARK /\ d2 < FARK
   | SDropSleep d => d < FARK
+  | STimeout d (ISleep x) => d < FARK /\ x < FARK
   | _ => False
   end.
 
@@ -23,8 +24,35 @@ Fixpoint exp_run (now : N) (steps : list step) : list N :=
   | SSleep d :: r => (now + d) :: exp_run (now + d) r
   | SSleepUntil t :: r => N.max now t :: exp_run (N.max now t) r
   | SReset _ _ d2 :: r => (now + d2) :: exp_run (now + d2) r
+  | STimeout d (ISleep x) :: r => (now + N.min x d) :: b2n (x <=? d) :: exp_run (now + N.min x d) r
   | _ :: r => now :: exp_run now r
   end.
+
+(* the await states of the fragment: the Sleeps they hold (all registered while the task is
+   blocked), the instant they complete, and what the task logs then *)
+Definition aw_held (a : aw) : list sleep := held_sleeps (Some a) None.
+
+Definition aw_kind (a : aw) : Prop :=
+  match a with AwSleep _ => True | AwTimeout (VSleep _) _ => True | _ => False end.
+
+Definition aw_wake (a : aw) : N :=
+  match a with
+  | AwSleep s => deadline s
+  | AwTimeout (VSleep s) dl => N.min (deadline s) (deadline dl)
+  | _ => 0
+  end.
+
+Definition aw_rec (a : aw) : list N :=
+  match a with
+  | AwSleep s => [deadline s]
+  | AwTimeout (VSleep s) dl => [N.min (deadline s) (deadline dl); b2n (deadline s <=? deadline dl)]
+  | _ => []
+  end.
+
+(* ids of the held Sleeps registered under deadline x, in registration order *)
+Definition new_at (a : aw) (x : N) : list N := map sid (filter (fun s => deadline s =? x) (aw_held a)).
+
+Definition reg (id d : N) : sleep := {| deadline := d; sid := id; handle := Some d |}.
 
 Definition dl_of (now : N) (st : step) : N :=
   match st with SSleep d => now + d | SSleepUntil t => t | SReset _ _ d2 => dl now d2 | _ => now end.
@@ -35,12 +63,15 @@ Definition prep_drv (now nid : N) (st : step) (dr : driver) : driver :=
   match st with
   | SReset polled d1 d2 => snd (reset_prep now polled (dl now d1) (dl now d2) nid dr)
   | SDropSleep d => let '(_, s1, dr1) := sleep_poll now (sleep_new (dl now d) nid) dr in sleep_drop s1 dr1
+  | STimeout d (ISleep x) =>
+    (* only when the delay is due at once (d = 0) while the value is not: the value Sleep was registered and is dropped *)
+    if (now <? now + x) && negb (now <? dl now d) then drop_entry nid (now + x) (register nid (now + x) dr) else dr
   | _ => dr
   end.
 
 (* one poll of a task that is not awaiting anything: (log entries, the Sleep it blocks on
    with the steps still to go, next Sleep id, the driver afterwards) *)
-Fixpoint frag_run (now nid : N) (steps : list step) (dr : driver) : list N * option (sleep * list step) * N * driver :=
+Fixpoint frag_run (now nid : N) (steps : list step) (dr : driver) : list N * option (aw * list step) * N * driver :=
   match steps with
   | [] => ([], None, nid, dr)
   | st :: r =>
@@ -50,15 +81,20 @@ Fixpoint frag_run (now nid : N) (steps : list step) (dr : driver) : list N * opt
     | SSleep _ | SSleepUntil _ | SReset _ _ _ =>
       let dr1 := prep_drv now nid st dr in
       if now <? dl_of now st
-      then ([], Some ({| deadline := dl_of now st; sid := nid; handle := Some (dl_of now st) |}, st :: r), nid + 1,
-            register nid (dl_of now st) dr1)
+      then ([], Some (AwSleep (reg nid (dl_of now st)), st :: r), nid + 1, register nid (dl_of now st) dr1)
       else let '(o, b, n, d') := frag_run now (nid + 1) r dr1 in (now :: o, b, n, d')
+    | STimeout d (ISleep x) =>
+      if (now <? now + x) && (now <? dl now d)
+      then ([], Some (AwTimeout (VSleep (reg nid (now + x))) (reg (nid + 1) (dl now d)), st :: r), nid + 2,
+            register (nid + 1) (dl now d) (register nid (now + x) dr))
+      else let '(o, b, n, d') := frag_run now (nid + 2) r (prep_drv now nid st dr) in
+           (now :: b2n (negb (now <? now + x)) :: o, b, n, d')
     | _ => ([], None, nid, dr)
     end
   end.
 
-Definition fr_steps (b : option (sleep * list step)) : list step := match b with Some (_, l) => l | None => [] end.
-Definition fr_cur (b : option (sleep * list step)) : option aw := match b with Some (s, _) => Some (AwSleep s) | None => None end.
+Definition fr_steps (b : option (aw * list step)) : list step := match b with Some (_, l) => l | None => [] end.
+Definition fr_cur (b : option (aw * list step)) : option aw := match b with Some (a, _) => Some a | None => None end.
 
 Lemma dl_fin now d : d < FARK -> dl now d = now + d.
 Proof. intros H. unfold dl. replace (FARK <=? d) with false by lia. reflexivity. Qed.
@@ -77,6 +113,16 @@ Proof.
     + unfold sleep_poll, sleep_new. cbn [deadline handle sid].
       destruct (now <? t); cbn [fr_steps fr_cur]; [rewrite app_nil_r; reflexivity|].
       rewrite IH. destruct (frag_run now (nid + 1) r dr) as [[[o b] n] d']. rewrite <- app_assoc. reflexivity.
+    + (* timeout around a sleep *)
+      destruct v as [x|]; [|contradiction].
+      cbn [run_steps start_step start_step0 poll_aw poll_aw0 fst snd frag_run prep_drv]. unfold timeout_poll, vpoll_m. cbn [fst snd vpoll]. unfold sleep_poll, sleep_new. cbn [deadline handle sid].
+      destruct (now <? now + x) eqn:Ex; cbn [andb negb].
+      * destruct (now <? dl now d) eqn:Ed; cbn [fst snd self_wakes fr_steps fr_cur reg].
+        -- rewrite app_nil_r. reflexivity.
+        -- unfold sleep_drop, vdrop. cbn [handle sid].
+           rewrite IH. destruct (frag_run now (nid + 2) r _) as [[[o b] n] d']. rewrite <- app_assoc. reflexivity.
+      * cbn [fst snd vdrop]. unfold sleep_drop. cbn [handle].
+        rewrite IH. destruct (frag_run now (nid + 2) r dr) as [[[o b] n] d']. rewrite <- app_assoc. reflexivity.
     + (* reset *)
       unfold reset_prep.
       destruct (if polled then let '(_, s1, dr1) := sleep_poll now (sleep_new (dl now d1) nid) dr in (s1, dr1)
@@ -94,13 +140,33 @@ Proof.
     + rewrite IH. destruct (frag_run now nid r dr) as [[[o b] n] d']. rewrite <- app_assoc. reflexivity.
 Qed.
 
-(* the task is polled when the Sleep it awaits is due *)
-Lemma run_steps_woken now m k st r s dr nid lg mail : deadline s <= now ->
-  run_steps now m k (st :: r) (Some (AwSleep s)) None dr nid lg mail =
-  run_steps now m k r None None dr nid (lg ++ [now]) mail.
+(* the task is polled when the future it awaits completes: at its wake instant *)
+Definition aw_done (t : N) (a : aw) (dr : driver) : driver :=
+  match a with
+  | AwTimeout (VSleep s) dl =>
+    if deadline s <=? t then drop_entry (sid dl) (deadline dl) dr else drop_entry (sid s) (deadline s) dr
+  | _ => dr
+  end.
+
+Lemma run_steps_woken now m k st r a dr nid lg mail :
+  aw_kind a -> Forall (fun s => handle s = Some (deadline s)) (aw_held a) -> aw_wake a = now ->
+  run_steps now m k (st :: r) (Some a) None dr nid lg mail =
+  run_steps now m k r None None (aw_done now a dr) nid (lg ++ aw_rec a) mail.
 Proof.
-  intros H. cbn [run_steps poll_aw poll_aw0 fst snd]. unfold sleep_poll.
-  replace (now <? deadline s) with false by lia. reflexivity.
+  intros Hk Hh Hw. destruct a as [s|v dl| | | | | | |]; try contradiction.
+  - cbn [aw_wake] in Hw. cbn [run_steps poll_aw poll_aw0 fst snd aw_done aw_rec]. unfold sleep_poll.
+    replace (now <? deadline s) with false by lia. rewrite Hw. reflexivity.
+  - destruct v as [s| | |]; try contradiction. cbn [aw_wake] in Hw. cbn [aw_held held_sleeps] in Hh.
+    inversion Hh as [|? ? Hs Hh']; subst. inversion Hh' as [|? ? Hd _]; subst.
+    cbn [run_steps poll_aw fst snd aw_done aw_rec]. unfold timeout_poll, vpoll_m. cbn [fst snd vpoll]. unfold sleep_poll.
+    destruct (deadline s <=? N.min (deadline s) (deadline dl)) eqn:E.
+    + replace (N.min (deadline s) (deadline dl) <? deadline s) with false by lia. cbn [fst snd vdrop].
+      unfold sleep_drop. cbn [handle sid]. rewrite Hd.
+      replace (deadline s <=? deadline dl) with true by lia. reflexivity.
+    + replace (N.min (deadline s) (deadline dl) <? deadline s) with true by lia. rewrite Hs. cbn [fst snd].
+      replace (N.min (deadline s) (deadline dl) <? deadline dl) with false by lia. cbn [fst snd vdrop].
+      unfold sleep_drop. cbn [handle sid]. rewrite Hs.
+      replace (deadline s <=? deadline dl) with false by lia. reflexivity.
 Qed.
 
 (* the preparations of a step leave the entries of the driver as they were *)
@@ -108,26 +174,35 @@ Lemma prep_drv_spec now nid st dr : frag_step st -> Mid now dr -> fresh_in nid (
   acts now dr (prep_drv now nid st dr) /\ forall x, ents_at x (pending (prep_drv now nid st dr)) = ents_at x (pending dr).
 Proof.
   intros Hst Hm Hf. pose proof (mid_sorted _ _ Hm) as Hs.
-  destruct st; try contradiction; cbn [prep_drv]; try (split; [apply acts_refl|reflexivity]).
+  destruct st as [d|t|d v| | | | |polled d1 d2|d| | | | | |]; try contradiction; cbn [prep_drv]; try (split; [apply acts_refl|reflexivity]).
+  - destruct v as [x|]; [|contradiction].
+    destruct ((now <? now + x) && negb (now <? dl now d)) eqn:E; [|split; [apply acts_refl|reflexivity]].
+    split.
+    + eapply acts_trans; [apply (acts_one now dr (Register nid (now + x))); cbn [op_wf]; lia|].
+      apply (acts_one now _ (DropEntry nid (now + x))). exact I.
+    + intros y. apply drop_registered_ents; assumption.
   - destruct (reset_prep_spec now polled (dl now d1) (dl now d2) nid dr Hs Hf) as (_ & H2 & H3). split; assumption.
   - split; [apply poll_drop_acts|]. intros x. apply poll_drop_ents; assumption.
 Qed.
 
 (* what one poll emits, where it leaves the task against the demanded log, and what it does
    to the driver: contract-respecting operations whose net effect on the entries is the
-   registration of the Sleep the task blocks on *)
+   registration of the Sleeps the task blocks on *)
+Definition blocked_ok (now nid n : N) (a : aw) : Prop :=
+  aw_kind a /\ now < aw_wake a /\ NoDup (map sid (aw_held a)) /\
+  Forall (fun s => now < deadline s /\ handle s = Some (deadline s) /\ nid <= sid s /\ sid s < n) (aw_held a).
+
 Lemma frag_run_spec now steps : Forall frag_step steps -> forall nid dr,
   Mid now dr -> (forall x id, In id (ents_at x (pending dr)) -> id < nid) ->
   let '(o, b, n, d') := frag_run now nid steps dr in
   nid <= n /\ acts now dr d' /\
   (forall x, ents_at x (pending d') =
-             ents_at x (pending dr) ++ match b with Some (s, _) => if x =? deadline s then [sid s] else [] | None => [] end) /\
+             ents_at x (pending dr) ++ match b with Some (a, _) => new_at a x | None => [] end) /\
   match b with
   | None => exp_run now steps = o
-  | Some (s, l) =>
+  | Some (a, l) =>
     exists st rest, l = st :: rest /\ Forall frag_step rest /\
-      exp_run now steps = o ++ deadline s :: exp_run (deadline s) rest /\
-      now < deadline s /\ handle s = Some (deadline s) /\ nid <= sid s /\ sid s < n
+      exp_run now steps = o ++ aw_rec a ++ exp_run (aw_wake a) rest /\ blocked_ok now nid n a
   end.
 Proof.
   induction 1 as [|st r Hst Hr IH]; intros nid dr Hm Hfr.
@@ -135,71 +210,107 @@ Proof.
   assert (Hf : fresh_in nid (pending dr)) by (intros x Hin; specialize (Hfr x nid Hin); lia).
   destruct (prep_drv_spec now nid st dr Hst Hm Hf) as [Hpa Hpe].
   assert (Hm1 : Mid now (prep_drv now nid st dr)) by exact (acts_mid _ _ _ Hpa Hm).
-  assert (Hfr1 : forall x id, In id (ents_at x (pending (prep_drv now nid st dr))) -> id < nid + 1).
-  { intros x id Hin. rewrite Hpe in Hin. specialize (Hfr x id Hin). lia. }
-  (* the three shapes: a step that may block, a step that does not, log *)
+  (* a step that blocks on one Sleep *)
   assert (Hblock : forall D, dl_of now st = D -> now < D ->
     (exp_run now (st :: r) = D :: exp_run D r) ->
-    let s := {| deadline := D; sid := nid; handle := Some D |} in
+    let a := AwSleep (reg nid D) in
     nid <= nid + 1 /\ acts now dr (register nid D (prep_drv now nid st dr)) /\
-    (forall x, ents_at x (pending (register nid D (prep_drv now nid st dr))) =
-               ents_at x (pending dr) ++ (if x =? deadline s then [sid s] else [])) /\
+    (forall x, ents_at x (pending (register nid D (prep_drv now nid st dr))) = ents_at x (pending dr) ++ new_at a x) /\
     exists st' rest, st :: r = st' :: rest /\ Forall frag_step rest /\
-      exp_run now (st :: r) = [] ++ deadline s :: exp_run (deadline s) rest /\
-      now < deadline s /\ handle s = Some (deadline s) /\ nid <= sid s /\ sid s < nid + 1).
+      exp_run now (st :: r) = [] ++ aw_rec a ++ exp_run (aw_wake a) rest /\ blocked_ok now nid (nid + 1) a).
   { intros D HD Hlt Hexp. cbn zeta. split; [lia|]. split.
     - eapply acts_trans; [exact Hpa|]. apply (acts_one now _ (Register nid D)). exact Hlt.
     - split.
-      + intros x. cbn [register set_pending pending deadline sid]. rewrite (ents_at_add _ _ _ _ (mid_sorted _ _ Hm1)), !Hpe.
-        destruct (x =? D) eqn:E; [replace x with D by lia; reflexivity|rewrite app_nil_r; reflexivity].
-      + exists st, r. cbn [deadline handle sid app]. repeat split; try assumption; lia. }
-  assert (Hpass : forall nid' dr', nid <= nid' -> acts now dr dr' -> Mid now dr' ->
+      + intros x. cbn [register set_pending pending]. rewrite (ents_at_add _ _ _ _ (mid_sorted _ _ Hm1)), !Hpe.
+        unfold new_at. cbn [aw_held held_sleeps filter reg deadline sid map].
+        destruct (x =? D) eqn:E.
+        * replace x with D by lia. rewrite N.eqb_refl. reflexivity.
+        * replace (D =? x) with false by lia. rewrite app_nil_r. reflexivity.
+      + exists st, r. cbn [aw_rec aw_wake reg deadline app]. split; [reflexivity|]. split; [exact Hr|]. split; [exact Hexp|].
+        unfold blocked_ok. cbn [aw_kind aw_wake aw_held held_sleeps reg deadline sid handle map].
+        split; [exact I|]. split; [exact Hlt|]. split; [repeat constructor; intros []|].
+        constructor; [|constructor]. unfold reg. cbn [deadline handle sid]. repeat split; try reflexivity; lia. }
+  (* a step that completes at once *)
+  assert (Hpass : forall nid' dr' (pre : list N), nid <= nid' -> acts now dr dr' -> Mid now dr' ->
      (forall x, ents_at x (pending dr') = ents_at x (pending dr)) ->
-     (exp_run now (st :: r) = now :: exp_run now r) ->
+     (exp_run now (st :: r) = pre ++ exp_run now r) ->
      let '(o, b, n, d') := frag_run now nid' r dr' in
      nid <= n /\ acts now dr d' /\
      (forall x, ents_at x (pending d') =
-                ents_at x (pending dr) ++ match b with Some (s, _) => if x =? deadline s then [sid s] else [] | None => [] end) /\
+                ents_at x (pending dr) ++ match b with Some (a, _) => new_at a x | None => [] end) /\
      match b with
-     | None => exp_run now (st :: r) = now :: o
-     | Some (s, l) =>
+     | None => exp_run now (st :: r) = pre ++ o
+     | Some (a, l) =>
        exists st' rest, l = st' :: rest /\ Forall frag_step rest /\
-         exp_run now (st :: r) = (now :: o) ++ deadline s :: exp_run (deadline s) rest /\
-         now < deadline s /\ handle s = Some (deadline s) /\ nid <= sid s /\ sid s < n
+         exp_run now (st :: r) = (pre ++ o) ++ aw_rec a ++ exp_run (aw_wake a) rest /\ blocked_ok now nid n a
      end).
-  { intros nid' dr' Hn Ha Hm' He Hexp.
+  { intros nid' dr' pre Hn Ha Hm' He Hexp.
     assert (Hfr' : forall x id, In id (ents_at x (pending dr')) -> id < nid') by (intros x id Hin; rewrite He in Hin; specialize (Hfr x id Hin); lia).
     specialize (IH nid' dr' Hm' Hfr'). destruct (frag_run now nid' r dr') as [[[o b] n] d'].
     destruct IH as (I1 & I2 & I3 & I4). split; [lia|]. split; [exact (acts_trans _ _ _ _ Ha I2)|].
     split; [intros x; rewrite I3, He; reflexivity|].
-    destruct b as [[s l]|].
-    - destruct I4 as (st' & rest & -> & Hf' & He' & H1 & H2 & H3 & H4). exists st', rest.
-      rewrite Hexp, He'. cbn [app]. repeat split; try assumption; lia.
+    destruct b as [[a l]|].
+    - destruct I4 as (st' & rest & -> & Hf' & He' & Hk & Hw & Hnd & Hall). exists st', rest.
+      rewrite Hexp, He', <- app_assoc. split; [reflexivity|]. split; [exact Hf'|]. split; [reflexivity|].
+      split; [exact Hk|]. split; [exact Hw|]. split; [exact Hnd|].
+      eapply Forall_impl; [|exact Hall]. cbn beta. intros s0 (H1 & H2 & H3 & H4). repeat split; try assumption; lia.
     - rewrite Hexp, I4. reflexivity. }
-  destruct st; try contradiction; cbn [frag_run].
+  destruct st as [d|t|d v| | | | |polled d1 d2|d| | | | | |]; try contradiction; cbn [frag_run].
   - (* sleep *)
     cbn [dl_of]. destruct (now <? now + d) eqn:E.
     + apply (Hblock (now + d)); [reflexivity|lia|reflexivity].
-    + pose proof (Hpass (nid + 1) (prep_drv now nid (SSleep d) dr) ltac:(lia) Hpa Hm1 Hpe) as H.
+    + pose proof (Hpass (nid + 1) (prep_drv now nid (SSleep d) dr) [now] ltac:(lia) Hpa Hm1 Hpe) as H.
       cbn [prep_drv] in *. destruct (frag_run now (nid + 1) r dr) as [[[o b] n] d'].
-      apply H. cbn [exp_run]. replace (now + d) with now by lia. reflexivity.
+      apply H. cbn [exp_run app]. replace (now + d) with now by lia. reflexivity.
   - (* sleep_until *)
     cbn [dl_of]. destruct (now <? t) eqn:E.
     + apply (Hblock t); [reflexivity|lia|]. cbn [exp_run]. replace (N.max now t) with t by lia. reflexivity.
-    + pose proof (Hpass (nid + 1) (prep_drv now nid (SSleepUntil t) dr) ltac:(lia) Hpa Hm1 Hpe) as H.
+    + pose proof (Hpass (nid + 1) (prep_drv now nid (SSleepUntil t) dr) [now] ltac:(lia) Hpa Hm1 Hpe) as H.
       cbn [prep_drv] in *. destruct (frag_run now (nid + 1) r dr) as [[[o b] n] d'].
-      apply H. cbn [exp_run]. replace (N.max now t) with now by lia. reflexivity.
+      apply H. cbn [exp_run app]. replace (N.max now t) with now by lia. reflexivity.
+  - (* timeout around a sleep *)
+    destruct v as [x|]; [|contradiction]. destruct Hst as [Hd Hx]. rewrite (dl_fin now d Hd) in *.
+    destruct ((now <? now + x) && (now <? now + d)) eqn:E.
+    + (* both pending: the value Sleep and the delay are registered *)
+      split; [lia|]. split.
+      * eapply acts_trans; [apply (acts_one now dr (Register nid (now + x))); cbn [op_wf]; lia|].
+        apply (acts_one now _ (Register (nid + 1) (now + d))). cbn [op_wf]. lia.
+      * split.
+        -- intros y. cbn [register set_pending pending].
+           rewrite (ents_at_add _ _ _ _ (q_add_sorted _ _ _ (mid_sorted _ _ Hm))), !(ents_at_add _ _ _ _ (mid_sorted _ _ Hm)).
+           unfold new_at. cbn [aw_held held_sleeps filter reg deadline sid map].
+           destruct (y =? now + d) eqn:E1, (y =? now + x) eqn:E2.
+           ++ replace y with (now + d) by lia. replace (now + x) with (now + d) by lia. rewrite !N.eqb_refl. cbn [map]. rewrite <- app_assoc. reflexivity.
+           ++ replace y with (now + d) by lia. rewrite N.eqb_refl. replace (now + d =? now + x) with false by lia.
+              replace (now + x =? now + d) with false by lia. cbn [map]. reflexivity.
+           ++ replace y with (now + x) by lia. rewrite N.eqb_refl. replace (now + d =? now + x) with false by lia. cbn [map reg sid]. reflexivity.
+           ++ replace (now + x =? y) with false by lia. replace (now + d =? y) with false by lia. cbn [map]. rewrite app_nil_r. reflexivity.
+        -- exists (STimeout d (ISleep x)), r. split; [reflexivity|]. split; [exact Hr|].
+           cbn [aw_rec aw_wake reg deadline exp_run app]. split.
+           ++ rewrite N.add_min_distr_l. replace (now + x <=? now + d) with (x <=? d) by lia. reflexivity.
+           ++ unfold blocked_ok. cbn [aw_kind aw_wake aw_held held_sleeps reg deadline sid handle map].
+              split; [exact I|]. split; [lia|]. split; [repeat constructor; [intros [H|[]]; lia|intros []]|].
+              constructor; [|constructor; [|constructor]]; unfold reg; cbn [deadline handle sid]; repeat split; try reflexivity; lia.
+    + (* one of them is due at once *)
+      pose proof (Hpass (nid + 2) (prep_drv now nid (STimeout d (ISleep x)) dr) [now; b2n (negb (now <? now + x))] ltac:(lia) Hpa Hm1 Hpe) as H.
+      cbn [prep_drv] in *. rewrite (dl_fin now d Hd) in *.
+      destruct (frag_run now (nid + 2) r _) as [[[o b] n] d'].
+      apply H. cbn [exp_run app].
+      destruct (now <? now + x) eqn:E1; cbn [andb negb] in *.
+      * (* the value is pending, so the delay is due: d = 0 *)
+        replace (N.min x d) with 0 by lia. replace (x <=? d) with false by lia. rewrite N.add_0_r. reflexivity.
+      * replace (N.min x d) with 0 by lia. replace (x <=? d) with true by lia. rewrite N.add_0_r. reflexivity.
   - (* reset *)
     destruct Hst as [Hd1 Hd2]. cbn [dl_of]. rewrite (dl_fin now d2 Hd2) in *. destruct (now <? now + d2) eqn:E.
     + apply (Hblock (now + d2)); [cbn [dl_of]; apply dl_fin; exact Hd2|lia|reflexivity].
-    + pose proof (Hpass (nid + 1) (prep_drv now nid (SReset polled d1 d2) dr) ltac:(lia) Hpa Hm1 Hpe) as H.
+    + pose proof (Hpass (nid + 1) (prep_drv now nid (SReset polled d1 d2) dr) [now] ltac:(lia) Hpa Hm1 Hpe) as H.
       destruct (frag_run now (nid + 1) r (prep_drv now nid (SReset polled d1 d2) dr)) as [[[o b] n] d'].
-      apply H. cbn [exp_run]. replace (now + d2) with now by lia. reflexivity.
+      apply H. cbn [exp_run app]. replace (now + d2) with now by lia. reflexivity.
   - (* drop *)
-    pose proof (Hpass (nid + 1) (prep_drv now nid (SDropSleep d) dr) ltac:(lia) Hpa Hm1 Hpe) as H.
+    pose proof (Hpass (nid + 1) (prep_drv now nid (SDropSleep d) dr) [now] ltac:(lia) Hpa Hm1 Hpe) as H.
     destruct (frag_run now (nid + 1) r (prep_drv now nid (SDropSleep d) dr)) as [[[o b] n] d'].
     apply H. reflexivity.
   - (* log *)
-    pose proof (Hpass nid dr ltac:(lia) (acts_refl now dr) Hm (fun x => eq_refl)) as H.
+    pose proof (Hpass nid dr [now] ltac:(lia) (acts_refl now dr) Hm (fun x => eq_refl)) as H.
     destruct (frag_run now nid r dr) as [[[o b] n] d']. apply H. reflexivity.
 Qed.
